@@ -111,7 +111,9 @@ static double ang_err(double y, double x, Q tref) {
 }
 
 static std::vector<double> tan_alphabet(bool thorough) {
-  std::vector<double> pos{1e-310, 1e-20, 1e-3, 0.57735026918962573, 1.0, 57295.77950726455 /* tan 89.999 */, 1e20};
+  // 1.5e-321 (300 denorm_min) and 1e-310: denormal tangents below / above 2^-1022 * eps, i.e. on both sides of the point
+  // where the Newton iterate of FromAuxiliary leaves the normal range (bracket initialisation)
+  std::vector<double> pos{1.5e-321, 1e-310, 1e-20, 1e-3, 0.57735026918962573, 1.0, 57295.77950726455 /* tan 89.999 */, 1e20};
   if (thorough) for (double x : {4.9406564584124654e-324, 2.2250738585072014e-308, 1e-160, 1e-8, 0.1, 0.41421356237309503, 2.4142135623730949, 10.0, 1e3, 1e8, 1e15, 1e160, 1.7976931348623157e308}) pos.push_back(x);
   if (thorough) {   // deep tier: every 10th decade, and the tangents of a ladder of angles up to 89.99999999 degrees
     for (int k = -300; k <= 300; k += 10) { double x = std::pow(10.0, k); if (std::find(pos.begin(), pos.end(), x) == pos.end()) pos.push_back(x); }
@@ -126,6 +128,7 @@ static std::vector<double> tan_alphabet(bool thorough) {
 }
 static const char* tan_class(double t) {
   double a = std::fabs(t);
+  if (a > 0 && a != DMIN && a < 1e-315) return "deep_denormal";
   return a == DMIN ? "denorm_min" : (a == std::numeric_limits<double>::max() ? "dbl_max" : (a >= 1e170 && std::isfinite(a) ? "ge-1e170" : "normal"));
 }
 static AuxAngle mk(double t) { return std::isinf(t) ? AuxAngle(t > 0 ? 1.0 : -1.0, 0.0) : AuxAngle(t, 1.0); }
@@ -756,7 +759,7 @@ int main(int argc, char** argv) {
     std::vector<int> eidx; if (T) for (int i = 0; i < 22; ++i) eidx.push_back(i); else eidx = {0, 3, 4, 7};
     ctx.bound("aux.ellipsoids", T ? "b/a in {1-1/298.257223563, 1-+1/1000, 1-+1/200, 1-1/150, 1, 1+1/150, 0.9, 1.1, 0.75, 1.5, 1/2, 2, 1/4, 4, 0.1, 10, 0.03, 30, 0.01, 100}, a = 6378137" : "b/a in {1-1/298.257223563, 1+1/150, 1/2, 100}, a = 6378137");
     std::vector<double> al = tan_alphabet(T);
-    ctx.bound("aux.angles", fmti((long long)al.size()) + " tangents: 0, +-inf, " + (T ? "+-{4.9e-324, 2.2e-308, 1e-310, 1e-8, 1e-3, 0.1, 10, 1e3, 1e8, 1e15, 1.8e308, 10^k for k = -300(10)300, tan of {1e-6, 0.01, 1, 5(5)85, 22.5, 67.5, 88, 89, 89.9, 89.99, 89.999, 89.9999, 89.999999, 89.99999999} deg}" : "+-{1e-310, 1e-20, 1e-3, tan 30, 1, tan 89.999, 1e20}") + " as AuxAngle; x all 36 (from,to) pairs x {exact, series (|f| <= 1/150 only)}");
+    ctx.bound("aux.angles", fmti((long long)al.size()) + " tangents: 0, +-inf, " + (T ? "+-{4.9e-324, 2.2e-308, 1e-310, 1e-8, 1e-3, 0.1, 10, 1e3, 1e8, 1e15, 1.8e308, 10^k for k = -300(10)300, tan of {1e-6, 0.01, 1, 5(5)85, 22.5, 67.5, 88, 89, 89.9, 89.99, 89.999, 89.9999, 89.999999, 89.99999999} deg}" : "+-{1.5e-321, 1e-310, 1e-20, 1e-3, tan 30, 1, tan 89.999, 1e20}") + " as AuxAngle; x all 36 (from,to) pairs x {exact, series (|f| <= 1/150 only)}");
     std::vector<EnvE*> envs(22, nullptr);
     auto env = [&](int i) { if (!envs[i]) envs[i] = new EnvE(ELLD[i]); return envs[i]; };
     ctx.sub("auxlat");
